@@ -7,6 +7,7 @@ import (
 	"net/http"
 	"net/http/httptest"
 	"strings"
+	"sync/atomic"
 	"testing"
 	"testing/synctest"
 	"time"
@@ -374,7 +375,7 @@ const (
 )
 
 // runSpCase drives the real wrapped handler once (twice when replay) and returns its observable behaviour and the model op.
-func runSpCase(t *testing.T, m *Model, rng *RNG, c spCase, replay bool) (goRes, op, extra string, mintErr error) {
+func runSpCase(t *testing.T, m *Model, rng *RNG, c spCase, replay bool, shared http.Handler) (goRes, op, extra string, mintErr error) {
 	_, ktToks := serviceKeytab()
 	id := uniqueID()
 	c.ap = uniquify(c.ap, id)
@@ -443,6 +444,11 @@ func runSpCase(t *testing.T, m *Model, rng *RNG, c spCase, replay bool) (goRes, 
 				w.WriteHeader(200)
 			})
 			h := spnego.SPNEGOKRB5Authenticate(inner, kt, opts...)
+			if shared != nil {
+				// one wrapped handler serving many requests: the inner handler reports through the request
+				h = shared
+				sharedInner.Store(inner)
+			}
 			req := httptest.NewRequest("GET", "http://host.test.gokrb5/resource", nil)
 			req.RemoteAddr = c.remote
 			if !c.noHeader {
@@ -455,7 +461,9 @@ func runSpCase(t *testing.T, m *Model, rng *RNG, c spCase, replay bool) (goRes, 
 			if p := Protect(func() { h.ServeHTTP(w, req) }); p != "" {
 				return "crashed"
 			}
-			wa := w.Header().Get("WWW-Authenticate")
+			// what the client receives: the header map as it was when the status line was written
+			res := w.Result()
+			wa := res.Header.Get("WWW-Authenticate")
 			switch {
 			case ran > 1:
 				return "served-more-than-once"
@@ -657,11 +665,20 @@ func statusName(c int) string {
 }
 
 func c03Compare(t *testing.T, m *Model, v *Verdict, rng *RNG, c spCase, replay bool) {
+	c03CompareOn(t, m, v, rng, c, replay, nil)
+}
+
+var sharedInner atomic.Value // the inner handler of the request being served by a shared wrapped handler
+
+func c03CompareOn(t *testing.T, m *Model, v *Verdict, rng *RNG, c spCase, replay bool, shared http.Handler) {
 	desc := c.describe()
 	if replay {
 		desc += ",replayed"
 	}
-	goRes, op, extra, mintErr := runSpCase(t, m, rng, c, replay)
+	if shared != nil {
+		desc = "shared-handler:" + desc
+	}
+	goRes, op, extra, mintErr := runSpCase(t, m, rng, c, replay, shared)
 	if mintErr != nil {
 		v.Note("case not minted: " + desc + ": " + mintErr.Error())
 		return
@@ -871,6 +888,42 @@ func TestC03(t *testing.T) {
 			if k%3 == 0 {
 				c03API(t, m, v, rng, c)
 			}
+		}
+	}
+	// one wrapped handler (as an application builds it: once) serving a sequence of requests from
+	// different peers: nothing of one request may leak into the verification of the next
+	var seqDefs []spDefect
+	for _, d := range defs {
+		n := d.name
+		if strings.HasPrefix(n, "session") || n == "newfails" || n == "ap-reqhost" || n == "ap-clientaddr-configured" || n == "flip" {
+			continue
+		}
+		seqDefs = append(seqDefs, d)
+	}
+	nseq := 25
+	if Thorough() {
+		nseq = 300
+	}
+	for k := 0; k < nseq; k++ {
+		et := ets[k%len(ets)]
+		kt, _ := serviceKeytab()
+		bc := baseCase(et)
+		h := spnego.SPNEGOKRB5Authenticate(http.HandlerFunc(func(w http.ResponseWriter, r *http.Request) {
+			sharedInner.Load().(http.Handler).ServeHTTP(w, r)
+		}), kt, settingsOpts(bc)...)
+		for i := 0; i < 6; i++ {
+			c := baseSp(et)
+			switch rng.Intn(4) {
+			case 0:
+				c.ap.caddr = []types.HostAddress{{AddrType: 2, Address: []byte{10, 0, 0, byte(1 + rng.Intn(2))}}}
+				c.remote = []string{"10.0.0.1:4321", "10.0.0.2:80", "@", "[2001:db8::1]:443"}[rng.Intn(4)]
+			case 1:
+				seqDefs[rng.Intn(len(seqDefs))].f(&c, rng)
+			case 2:
+				c.remote = []string{"10.0.0.1:4321", "10.0.0.2:80", "@"}[rng.Intn(3)]
+				c.noHeader = rng.Intn(2) == 0
+			}
+			c03CompareOn(t, m, v, rng, c, false, h)
 		}
 	}
 	v.ModelAsks = m.N
